@@ -234,6 +234,24 @@ func firstDiff(a, b map[string]any) string {
 	sort.Strings(keys)
 	for _, k := range keys {
 		if !kubesim.JSONEqual(na[k], nb[k]) {
+			ma, oka := na[k].(map[string]any)
+			mb, okb := nb[k].(map[string]any)
+			if oka && okb {
+				// name the differing fields first: the full values can be long
+				var fields []string
+				for f := range ma {
+					if !kubesim.JSONEqual(ma[f], mb[f]) {
+						fields = append(fields, fmt.Sprintf("%s: A=%s B=%s", f, trunc(mustJSON(ma[f]), 200), trunc(mustJSON(mb[f]), 200)))
+					}
+				}
+				for f := range mb {
+					if _, ok := ma[f]; !ok {
+						fields = append(fields, fmt.Sprintf("%s: A=<absent> B=%s", f, trunc(mustJSON(mb[f]), 200)))
+					}
+				}
+				sort.Strings(fields)
+				return fmt.Sprintf("%s differs in [%s]", k, strings.Join(fields, "; "))
+			}
 			return fmt.Sprintf("%s: A=%s B=%s", k, trunc(mustJSON(na[k]), 500), trunc(mustJSON(nb[k]), 500))
 		}
 	}
